@@ -345,7 +345,7 @@ Lemma ev_cond_wf : forall cls st sc, wf_state st -> wf_scope st sc -> good_res s
 Proof.
   induction cls as [|[c body] cls IH]; intros st sc W S; simpl; [apply good_ret; [assumption|apply wf_nil]|].
   eapply good_bind; [apply Hev; assumption|]. intros v s E Ws Vs.
-  apply good_bindo; [assumption|]. intros b Hb. destruct b.
+  unfold truthy; simpl. destruct (negb (is_nil (primary v))).
   - destruct body.
     + apply good_ret; [assumption|apply wf_primary; assumption].
     + apply ev_seq_wf; [assumption|eapply wf_scope_ext; eauto|apply wf_nil].
